@@ -309,6 +309,9 @@ def export_paths(text):
     keys = {}
     for p in paths:
         keys[json.dumps(p["steps"], sort_keys=True)] = p
+    if all(p.get("done") for p in paths):
+        # only finished behaviours were exported: none is a prefix of another one that matters
+        return cfg, list(keys.values()), len(paths)
     # a path is maximal when no other exported path extends it
     prefixes = set()
     for p in paths:
